@@ -102,22 +102,52 @@ def extras(foreign: str) -> list[tuple[str, bytes, bytes]]:
 
 
 def column_shapes(method: str) -> list[tuple[str, Any]]:
-    """(name, fn(rows) -> RecordBatch) for the parameter columns of *method* (declared + perturbed)."""
-    if method == "echo":
-        decl = lambda n: pa.RecordBatch.from_pydict({"n": list(range(n))}, schema=pa.schema([pa.field("n", pa.int64())]))  # noqa: E731
-        col = "n"
+    """(name, fn(rows) -> RecordBatch) for the parameter columns of *method* (declared + perturbed).
+
+    The *declared* shape is built from the schema the framework itself derives for the method (field nullability
+    included), so a well-formed request really is dispatched."""
+    from vgi_rpc.rpc import rpc_methods
+
+    target = "echo" if method == "echo" else "produce"
+    sch = rpc_methods(prog.ScriptSvc)[target].params_schema
+    col = sch.names[0]
+    ftype = sch.field(0).type
+    if target == "echo":
+        decl = lambda n: pa.RecordBatch.from_pydict({"n": list(range(n))}, schema=sch)  # noqa: E731
     else:
-        decl = lambda n: pa.RecordBatch.from_pydict({"script": [SCRIPT] * n}, schema=pa.schema([pa.field("script", pa.utf8())]))  # noqa: E731
-        col = "script"
+        decl = lambda n: pa.RecordBatch.from_pydict({"script": [SCRIPT] * n}, schema=sch)  # noqa: E731
+
+    def one(arr_fn: Any, nullable: bool = False) -> Any:
+        t = arr_fn(1).type
+
+        def mk(n: int) -> pa.RecordBatch:
+            arr = arr_fn(n) if n else arr_fn(1).slice(0, 0)
+            return pa.RecordBatch.from_arrays([arr], schema=pa.schema([pa.field(col, t, nullable=nullable)]))
+
+        return mk
+
+    def bad_utf8(n: int) -> pa.Array:
+        # a utf8 column whose bytes are not UTF-8 (well-framed Arrow, invalid under full validation)
+        offs = pa.py_buffer(b"".join(int(2 * i).to_bytes(4, "little") for i in range(n + 1)))
+        return pa.Array.from_buffers(pa.utf8(), n, [None, offs, pa.py_buffer(b"\xff\xfe" * n)])
+
     return [
         ("declared", decl),
+        ("nullable", lambda n: decl(n).cast(pa.schema([pa.field(col, ftype, nullable=True)]))),
         ("renamed", lambda n: decl(n).rename_columns(["zz"])),
         ("extra", lambda n: decl(n).append_column("extra", pa.array([1] * n, pa.int32()))),
         ("none", lambda n: pa.RecordBatch.from_struct_array(pa.array([{}] * n, pa.struct([])))),
-        ("binary", lambda n: pa.RecordBatch.from_arrays([pa.array([b"\xff\x00"] * n, pa.binary())], names=[col])),
-        ("dict", lambda n: pa.RecordBatch.from_arrays([pa.array(["a"] * n).dictionary_encode()], names=[col])),
-        ("nested", lambda n: pa.RecordBatch.from_arrays([pa.array([[1, 2]] * n, pa.list_(pa.int64()))], names=[col])),
-        ("null", lambda n: pa.RecordBatch.from_arrays([pa.array([None] * n, decl(0).schema.field(0).type)], names=[col])),
+        ("binary", one(lambda n: pa.array([b"\xff\x00"] * n, pa.binary()))),
+        ("dict", one(lambda n: pa.array(["a"] * n).dictionary_encode())),
+        ("nested", one(lambda n: pa.array([[1, 2]] * n, pa.list_(pa.int64())))),
+        ("null", lambda n: pa.RecordBatch.from_arrays([pa.array([None] * n, ftype)], names=[col])),
+        ("utf8-invalid", one(bad_utf8)),
+        ("large-string", one(lambda n: pa.array(["x"] * n, pa.large_utf8()))),
+        ("ts-huge", one(lambda n: pa.array([2**62] * n, pa.timestamp("s")))),
+        ("date-huge", one(lambda n: pa.array([2**31 - 1] * n, pa.date32()))),
+        ("duration-huge", one(lambda n: pa.array([2**62] * n, pa.duration("s")))),
+        ("decimal", one(lambda n: pa.array([1] * n, pa.int64()).cast(pa.decimal128(25, 2)))),
+        ("int32", one(lambda n: pa.array([1] * n, pa.int32()))),
     ]
 
 
@@ -173,10 +203,18 @@ class Link:
             return f"probe failed: {type(e).__name__}: {str(e)[:200]}"
 
 
-def exchange_raw(c: Conn, data: bytes) -> dict[str, Any]:
-    """Send one request; collect what the server does. Returns {'kind': reply|stream|closed|hang, ...}."""
+def exchange_raw(c: Conn, data: bytes, headerless_stream: bool = False) -> dict[str, Any]:
+    """Send one request; collect what the server does. Returns {'kind': reply|stream|closed|hang, ...}.
+
+    *headerless_stream*: the client is calling a stream method without a header.  Such a client reads nothing
+    before it has written its input stream (WIRE_PROTOCOL section 9), so -- whatever the server makes of the
+    request -- the input stream follows the request (here: the empty stream a client that closes without
+    ticking writes), and exactly one response stream is read: the output stream or the refusal."""
     w, r = c.ct.writer, c.ct.reader
     w.write(data)
+    if headerless_stream:
+        with pa.ipc.new_stream(w, pa.schema([])):
+            pass
     try:
         st = mem.wait_reply_or_idle(c.ct)
     except TimeoutError:
@@ -184,12 +222,16 @@ def exchange_raw(c: Conn, data: bytes) -> dict[str, Any]:
     if st == "closed":
         return {"kind": "closed"}
     if st == "idle":
+        if headerless_stream:
+            return {"kind": "hang", "detail": "server idle without answering a stream call whose input was sent"}
         # the server dispatched a headerless stream and waits for input: close the input stream
         with pa.ipc.new_stream(w, pa.schema([])):
             pass
         out = raw.classify(raw.read_stream(r))
         return {"kind": "stream", "resp": out}
     first = raw.classify(raw.read_stream(r))
+    if headerless_stream:
+        return {"kind": "stream" if first["error"] is None else "reply", "resp": first}
     if first["error"] is None and first["data"] and "tag" in first["data"][0]:
         # a stream header: the stream is open, finish it
         with pa.ipc.new_stream(w, pa.schema([])):
@@ -210,6 +252,15 @@ def part_a(ctx: Ctx, foreign: str) -> None:
             firsts.setdefault(e[0], e)
         keyreps = list(firsts.values())
         pairs = [p for p in itertools.combinations(keyreps, 2)]
+    # dynamic shared-memory attach needs name AND size: every name x a few sizes, alone and with a pointer
+    shm_combos: list[tuple[tuple[str, bytes, bytes], ...]] = []
+    for name_e in [e for e in ex if e[0] == "shm_name"]:
+        for size_v in (b"4096", b"0", b"-1", b"99999999999999999999"):
+            size_e = ("shm_size", b"vgi_rpc.shm_segment_size", size_v)
+            shm_combos.append((name_e, size_e))
+            if size_v == b"4096":
+                shm_combos.append((name_e, size_e, ("shm_offset", b"vgi_rpc.shm_offset", b"0"), ("shm_length", b"vgi_rpc.shm_length", b"64")))
+                shm_combos.append((name_e, size_e, ("shm_offset", b"vgi_rpc.shm_offset", b"0")))
     link = {False: Link(False), True: Link(True)}
     ctx.extra.setdefault("partA_requests", 0)
     ctx.extra.setdefault("partA_dispatched", 0)
@@ -217,22 +268,22 @@ def part_a(ctx: Ctx, foreign: str) -> None:
         for (mname, mval), (vname, vval) in itertools.product(methods(), VERSIONS):
             if not ctx.mine():
                 continue
-            shapes = column_shapes(mname if mname in ("echo",) else "produce")
-            extra_sets = none_extra + singles + pairs
+            shapes = column_shapes("echo" if mname == "echo" else "produce")
+            extra_sets = none_extra + singles + pairs + shm_combos
             if external and ctx.quick:
                 # quick tier: with an external-location config only the pointer keys matter
                 extra_sets = [es for es in singles if es[0][0].startswith("location")]
             for extra_set in extra_sets:
                 for sname, sfn in shapes:
                     rows_list = (0, 1, 2, 3) if (sname == "declared" or ctx.thorough) else (1,)
-                    if extra_set and sname not in ("declared", "none") and ctx.quick:
+                    if extra_set and sname not in ("declared", "none", "nullable") and ctx.quick:
                         continue
                     for rows in rows_list:
                         batch = sfn(rows)
                         md = {k: v for _, k, v in extra_set}
                         data = raw.frame_request(mval, batch, metadata=md, request_version=vval)
                         case = {
-                            "part": "A", "method": mname, "version": vname, "extras": [[e[0], e[2].hex()] for e in extra_set],
+                            "part": "A", "method": mname, "version": vname, "extras": [[e[0], "FOREIGN" if e[2] == foreign.encode() else e[2].hex()] for e in extra_set],
                             "columns": sname, "rows": rows, "external": external,
                         }
                         one_a(ctx, link[external], data, case)
@@ -246,10 +297,13 @@ def one_a(ctx: Ctx, lk: Link, data: bytes, case: dict[str, Any]) -> None:
     if case["extras"]:
         # an extra metadata key is present: the class is the key(s) and value(s), whatever the method/columns
         cls = "extra:" + ",".join(sorted(f"{e[0]}={e[1]}" for e in case["extras"]))
+    elif case["columns"] not in ("declared", "nullable", "none"):
+        # an unusual column shape: the class is the shape, whatever the method / version
+        cls = f"columns:{case['columns']}"
     else:
         cls = f"{case['method']}:{case['version']}:{case['columns']}"
     try:
-        res = exchange_raw(c, data)
+        res = exchange_raw(c, data, headerless_stream=case["method"] == "produce")
     except mem.Deadlock as e:
         res = {"kind": "hang", "detail": str(e)}
     except Exception as e:  # noqa: BLE001 - EOF / invalid stream from a dead server
@@ -380,13 +434,11 @@ def replay(ctx: Ctx, case: dict[str, Any]) -> None:
     try:
         mval = dict(methods())[case["method"]]
         vval = dict(VERSIONS)[case["version"]]
-        ex = {e[0] + e[2].hex(): e for e in extras(seg.name)}
+        keys = {e[0]: e[1] for e in extras(seg.name)}
+        keys.update({"shm_size": b"vgi_rpc.shm_segment_size", "shm_offset": b"vgi_rpc.shm_offset", "shm_length": b"vgi_rpc.shm_length"})
         md = {}
         for name, hexv in case["extras"]:
-            e = ex.get(name + hexv)
-            if e is None:  # the foreign segment name differs per run
-                e = next(x for x in extras(seg.name) if x[0] == name and x[2] == seg.name.encode())
-            md[e[1]] = e[2]
+            md[keys[name]] = seg.name.encode() if hexv == "FOREIGN" else bytes.fromhex(hexv)
         shapes = dict(column_shapes(case["method"] if case["method"] == "echo" else "produce"))
         data = raw.frame_request(mval, shapes[case["columns"]](case["rows"]), metadata=md, request_version=vval)
         lk = Link(case["external"])
